@@ -38,6 +38,7 @@ import (
 	"github.com/cosmos/cosmos-sdk/crypto/keys/multisig"
 	cryptotypes "github.com/cosmos/cosmos-sdk/crypto/types"
 	sdk "github.com/cosmos/cosmos-sdk/types"
+	"github.com/cosmos/cosmos-sdk/types/bech32"
 	sdkerrors "github.com/cosmos/cosmos-sdk/types/errors"
 	txtypes "github.com/cosmos/cosmos-sdk/types/tx"
 	"github.com/cosmos/cosmos-sdk/types/tx/signing"
@@ -71,6 +72,7 @@ import (
 const modPath = "github.com/functionx/fx-core/v8/"
 
 type env struct {
+	mvbN map[string]int
 	s   *hx.Suite
 	out *hx.Out
 	rng *rand.Rand
@@ -119,6 +121,9 @@ func (e *env) checkDecoded(url string, m proto.Message, class string, wire []byt
 	}
 	if vb, ok := m.(sdk.HasValidateBasic); ok {
 		res := hx.Try(func() error { return vb.ValidateBasic() })
+		if fx {
+			e.mvb(url, m, class, res)
+		}
 		switch {
 		case isPanic(res):
 			e.out.Count("vb-panic")
@@ -143,6 +148,32 @@ func (e *env) checkDecoded(url string, m proto.Message, class string, wire []byt
 	} else {
 		e.out.Count("signers-err")
 	}
+}
+
+// mvb: the regenerated validation program (Gen/C20Msg.lean) must give the verdict of the real ValidateBasic
+func (e *env) mvb(url string, m proto.Message, class, res string) {
+	if e.mvbN == nil {
+		e.mvbN = map[string]int{}
+	}
+	always := strings.HasSuffix(class, " absent") || strings.HasSuffix(class, " empty") || class == "valid template" || strings.HasPrefix(class, "corpus") || strings.HasPrefix(class, "zero value")
+	if !always && e.mvbN[url] >= hx.N(120, 3000) {
+		return
+	}
+	line, why := e.msgProgLine(m)
+	if line == "" {
+		e.out.Count("mvb-skipped: " + why)
+		return
+	}
+	e.mvbN[url]++
+	verdict := "err"
+	switch {
+	case isPanic(res):
+		verdict = "panic"
+	case res == "ok":
+		verdict = "ok"
+	}
+	e.out.Count("mvb-" + verdict)
+	e.out.Emit(line, verdict)
 }
 
 // fieldOf extracts the field path of a mutation class ("field 4.2 absent" -> "4.2")
@@ -878,6 +909,37 @@ func (e *env) decoderSweep() {
 		if isPanic(res) {
 			e.out.Violate("panic in address parser on input class [mutated address text]: " + res + " input=" + hex.EncodeToString([]byte(a)))
 		}
+		// correspondence with the Lean models of ValidateEthereumAddress / ParseAddress (Keccak checksum and bech32 are inputs)
+		if !isPanic(res) {
+			ck := boolB(common.HexToAddress(a).Hex() == a)
+			kind := "ok"
+			if err := contract.ValidateEthereumAddress(a); err != nil {
+				switch {
+				case err.Error() == "empty":
+					kind = "empty"
+				case err.Error() == "wrong length":
+					kind = "wrong-length"
+				case err.Error() == "invalid format":
+					kind = "invalid-format"
+				case strings.HasPrefix(err.Error(), "mismatch"):
+					kind = "checksum"
+				default:
+					kind = "other:" + err.Error()
+				}
+			}
+			e.out.Emit("ethaddr "+hx.HexS(a)+" "+ck, kind)
+			e.out.Nontrivial("ethaddr " + kind)
+			_, _, berr := bech32.DecodeAndConvert(a)
+			_, isEvm, perr := fxtypes.ParseAddress(a)
+			pk := "err"
+			if perr == nil && isEvm {
+				pk = "evm"
+			} else if perr == nil {
+				pk = "bech32"
+			}
+			e.out.Emit("paddr "+hx.HexS(a)+" "+boolB(berr == nil)+" "+ck, pk)
+			e.out.Nontrivial("paddr " + pk)
+		}
 		if contract.ValidateEthereumAddress(a) == nil {
 			okFmt := len(a) == 42 && strings.HasPrefix(a, "0x")
 			for _, c := range a[min(2, len(a)):] {
@@ -1066,6 +1128,20 @@ func (e *env) genFeeCase(from sdk.AccAddress, wide bool) feeCase {
 			continue
 		}
 		fee = append(fee, sdk.Coin{Denom: d, Amount: amt})
+	}
+	if wide {
+		// further fee denominations the node has no price for (before, between and after the priced ones): they must never
+		// buy admission, whatever their amount
+		for _, d := range []string{"aaa", "zzz", "Axx"} {
+			if rng.Intn(3) == 0 {
+				amt := hx.Pick(rng, []sdkmath.Int{sdkmath.NewInt(1), sdkmath.NewInt(int64(1 + rng.Intn(1000000))), sdkmath.NewIntWithDecimal(1, 30)})
+				fee = append(fee, sdk.Coin{Denom: d, Amount: amt})
+				e.out.Count("fee-extra-unpriced-denom")
+			}
+		}
+		if rng.Intn(4) != 0 {
+			sort.Slice(fee, func(i, j int) bool { return fee[i].Denom < fee[j].Denom })
+		}
 	}
 	if wide && len(fee) == 2 && rng.Intn(4) == 0 {
 		fee[0], fee[1] = fee[1], fee[0] // unsorted
@@ -1365,6 +1441,7 @@ func TestC20(t *testing.T) {
 	e.hostileAnte()
 	e.anteRawSweep(t)
 	e.nodeConfigSweep(t)
+	e.abciSweep(t)
 	out.Stats.Extra["violation_counts"] = e.seenV
 	if len(e.dep) > 0 {
 		out.Stats.Extra["dependency_type_panics (SDK/IBC/ethermint message code, outside fx-core)"] = e.dep
